@@ -109,7 +109,7 @@ def run_task(task):
     prefix = []
     seen_labels = {}
     while True:
-        ex = Explorer(prefix, logic=logic, max_branches=h.meta.get("max_branches", 4000))
+        ex = Explorer(prefix, logic=logic, max_branches=h.meta.get("max_branches", 4000), shard=task.get("shard"))
         core.CUR = ex
         ctx = Ctx("sym", ex=ex, params=params)
         ctx.path_index = res["paths"]
@@ -151,6 +151,13 @@ def run_task(task):
             core.CUR = None
         if rec:
             res["functions"] = rec.result()
+        if task.get("shard") and ex.duplicate_in_shard() and status == "ok":
+            res["dup_paths"] = res.get("dup_paths", 0) + 1
+            prefix = next_prefix(ex.decisions)
+            if prefix is None:
+                res["exhausted"] = True
+                break
+            continue
         res["paths"] += 1
         res["decisions"] += sum(1 for d in ex.decisions if not d[3] or d[0] == "c")
         res["asserted"] += ctx.asserted
